@@ -17,6 +17,7 @@ import (
 // Engine holds everything loaded from /repo's current working tree.
 type Engine struct {
 	repo    string
+	overlayPath string
 	fset    *token.FileSet
 	pkgs    map[string]*packages.Package
 	funcs   map[string]*FuncInfo // key: "<pkgname>.<Recv>.<Name>" or "<pkgname>.<Name>"
@@ -83,7 +84,7 @@ func fatal(format string, a ...any) {
 }
 
 func load(repo string, overlayPath string, patterns []string) *Engine {
-	e := &Engine{repo: repo, pkgs: map[string]*packages.Package{}, funcs: map[string]*FuncInfo{},
+	e := &Engine{repo: repo, overlayPath: overlayPath, pkgs: map[string]*packages.Package{}, funcs: map[string]*FuncInfo{},
 		byObj: map[*types.Func]*FuncInfo{}, trusted: map[string]bool{}, typeSpecs: map[string]*TypeSpec{}, ghostTypes: map[string]types.Type{}}
 	e.fset = token.NewFileSet()
 	cfg := &packages.Config{
